@@ -367,10 +367,11 @@ func c13Expand(rt *c13Route, rq *c13Req) []c13Variant {
 	hasVar := strings.HasSuffix(rt.Form, "$path")
 	switch {
 	case strings.HasSuffix(rt.Form, "/$path"):
-		pre := strings.TrimSuffix(rt.Form, "$path")
+		pre := strings.TrimSuffix(rt.Form, "/$path")
 		for _, x := range ps {
-			add(pre + strings.TrimPrefix(x, "/"))
-			add(pre + x)
+			add(pre + x)                                // "/$path" read as "$path" (x is empty or starts with a slash)
+			add(pre + "/" + strings.TrimPrefix(x, "/")) // joined with exactly one slash
+			add(pre + "/" + x)                          // literal substitution
 		}
 	case hasVar:
 		pre := strings.TrimSuffix(rt.Form, "$path")
@@ -417,6 +418,7 @@ func (v c13Variant) location(scheme string) string {
 // advance); where the connection's scheme (always http here) and the header
 // disagree or the header is absent, and one of them equals the target scheme, it
 // is left open. Host: equal as sent; differing only by the default port is left open.
+// Path: equal as written on the wire; equal only after percent-decoding is left open.
 func c13Self(rt *c13Route, rq *c13Req, v c13Variant) int {
 	res := 1
 	switch {
@@ -433,7 +435,11 @@ func c13Self(rt *c13Route, rq *c13Req, v c13Variant) int {
 	default:
 		return 0
 	}
-	if v.Path != rq.Path {
+	switch {
+	case v.Path == rq.Path:
+	case c13Unescape(v.Path) == c13Unescape(rq.Path): // same path only after decoding %2F and the like: left open
+		res = -1
+	default:
 		return 0
 	}
 	return res
@@ -442,7 +448,8 @@ func c13Self(rt *c13Route, rq *c13Req, v c13Variant) int {
 type c13Expectation struct {
 	Acc          []c13Outcome
 	SkipDemanded bool         // the first candidate must be skipped (and a later candidate exists)
-	SelfLocs     []string     // Locations of candidates that point back at the request
+	SelfLocs     []string     // Locations of candidates that point back at the request (settled or left open)
+	MustSkip     []string     // Locations that certainly point back at the request while a further candidate exists
 	Later        []c13Outcome // plain outcomes of the candidates after the first one
 	Redirect     bool         // the first candidate is a redirect route
 }
@@ -472,6 +479,9 @@ func c13ExpectChain(cands []*c13Route, rq *c13Req, depth int, ex *c13Expectation
 			ex.SelfLocs = append(ex.SelfLocs, loc)
 			if len(rest) > 0 {
 				cont = true
+				if self == 1 {
+					ex.MustSkip = append(ex.MustSkip, loc)
+				}
 			} else {
 				// nothing to skip to: the statement does not say what happens
 				out = append(out, c13Outcome{Kind: "redirect", Code: c.Code, Loc: loc, rt: c}, c13Outcome{Kind: "noroute"})
@@ -536,6 +546,12 @@ func c13Judge(r *simcore.Run, rq *c13Req, got c13Outcome, upstreamSaw string, ex
 		switch {
 		case a.Kind == "redirect" && got.Kind == "redirect" && a.Code == got.Code && a.Loc == got.Loc && upstreamSaw == "":
 			r.Probe("redirect_answered")
+			for _, l := range ex.SelfLocs {
+				if l == got.Loc {
+					r.Probe("unsettled_self_redirect_answered") // e.g. same host and path, scheme known only from the connection
+					break
+				}
+			}
 			if strings.Contains(rq.Path, "%") && strings.HasSuffix(a.rt.Form, "$path") {
 				r.Probe("escaped_path_into_location")
 			}
@@ -560,23 +576,27 @@ func c13Judge(r *simcore.Run, rq *c13Req, got c13Outcome, upstreamSaw string, ex
 	}
 	admitted := strings.Join(accs, " | ")
 	if got.Kind == "redirect" {
+		for _, l := range ex.MustSkip {
+			if l == got.Loc {
+				r.Fail("self-redirect", "not-skipped", "%s: redirected to %s, which is the request's own scheme, host and path; a further matching host exists; admitted: %s", what, got.Loc, admitted)
+				return
+			}
+		}
 		for _, a := range ex.Acc {
 			if a.Kind == "redirect" && a.Loc == got.Loc {
 				r.Fail("status", "not-configured-code", "%s: redirected with status %d, the route configures %d (Location %s)", what, got.Code, a.Code, got.Loc)
 				return
 			}
 		}
-		if ex.SkipDemanded {
-			for _, l := range ex.SelfLocs {
-				if l == got.Loc {
-					r.Fail("self-redirect", "not-skipped", "%s: redirected to %s, which is the request's own scheme, host and path; a further matching host exists; admitted: %s", what, got.Loc, admitted)
-					return
-				}
-			}
-		}
 		for _, a := range ex.Later {
 			if a.Kind == "redirect" && a.Loc == got.Loc && a.Code == got.Code {
 				r.Fail("self-redirect", "skipped-without-cause", "%s: answered by the next host's route (%s) although the first matching redirect does not point back at the request; admitted: %s", what, got, admitted)
+				return
+			}
+		}
+		for _, a := range ex.Acc {
+			if a.Kind == "redirect" && c13Unescape(a.Loc) == c13Unescape(got.Loc) {
+				r.Fail("location", "path-encoding/"+a.rt.Form, "%s via target %s: Location %s does not keep the request's percent-encoding; admitted: %s", what, c13Target(a.rt), got.Loc, admitted)
 				return
 			}
 		}
@@ -587,12 +607,6 @@ func c13Judge(r *simcore.Run, rq *c13Req, got c13Outcome, upstreamSaw string, ex
 		if strings.Contains(got.Loc, "$path") || strings.Contains(got.Loc, "$host") {
 			r.Fail("location", "unexpanded-variable", "%s: got %s; admitted: %s", what, got, admitted)
 			return
-		}
-		for _, a := range ex.Acc {
-			if a.Kind == "redirect" && c13Unescape(a.Loc) == c13Unescape(got.Loc) {
-				r.Fail("location", "path-encoding/"+a.rt.Form, "%s via target %s: Location %s does not keep the request's percent-encoding; admitted: %s", what, c13Target(a.rt), got.Loc, admitted)
-				return
-			}
 		}
 		r.Fail("location", "mismatch", "%s: got %s; admitted: %s", what, got, admitted)
 		return
